@@ -687,6 +687,7 @@ type Client struct {
 	SubInt          func(ctx context.Context, tok string, n int, mode int) (<-chan int, error)
 	SubFloat        func(ctx context.Context, tok string, n int, nanAt int) (<-chan float64, error)
 	SubMixed        func(ctx context.Context, tok string, n int, bigBytes int) (<-chan string, error)
+	SubStrAsInt     func(ctx context.Context, tok string, n int, mode int) (<-chan int, error) `rpc_method:"S.SubStr"`
 	RevSubN         func(ctx context.Context, tok string, n int, everyMs int, lingerMs int) (string, error)
 	SubStr          func(ctx context.Context, tok string, n int, mode int) (<-chan string, error)
 	SubBytes        func(ctx context.Context, tok string, n int, mode int) (<-chan []byte, error)
